@@ -6,7 +6,7 @@ import RegexVerif.Lemmas.StackTypingSound
 
 namespace RegexVerif.Lemmas.StackTypingSound
 open RegexVerif RegexVerif.Code RegexVerif.VM RegexVerif.StackTyping RegexVerif.Lemmas.VM
-open RegexVerif.Lemmas.StackTyping
+open RegexVerif.Lemmas.StackTyping RegexVerif.Lemmas.StackTypingCap
 
 /-! ### error kinds of the primitives -/
 
@@ -149,22 +149,44 @@ theorem runematch_nodisc (env : Env) (s : VMState) (str : List Nat) : NoDisc (ru
     · cases h
     · cases h
 
-theorem refmatch_nodisc (env : Env) (s : VMState) (index len : Int) : NoDisc (refmatch env s index len) := by
+/-- the comparison loop reads `get` only at the `k` positions before `x` -/
+theorem cmpBack_nodisc' (env : Env) (ci : Bool) (get : Int → M Nat) :
+    ∀ (k : Nat) (x y : Int), (∀ i, x - k ≤ i → i < x → NoDisc (get i)) → NoDisc (cmpBack env ci get k x y) := by
+  intro k
+  induction k with
+  | zero => intro x y _ f h; simp [cmpBack] at h
+  | succ k ih =>
+    intro x y hget f h
+    unfold cmpBack at h
+    cases hg : get (x - 1) with
+    | error e => simp only [hg] at h; cases h; exact hget (x - 1) (by omega) (by omega) _ hg
+    | ok u =>
+      cases hc : charAt env (y - 1) with
+      | error e => simp only [hg, hc] at h; cases h; exact charAt_nodisc _ _ _ hc
+      | ok v =>
+        simp only [hg, hc] at h
+        by_cases hx : u = (if ci then env.toLower v else v)
+        · rw [if_pos hx] at h
+          exact ih _ _ (fun i h1 h2 => hget i (by omega) (by omega)) _ h
+        · rw [if_neg hx] at h; cases h
+
+/-- a backreference to an interval inside the text raises no `capRange` -/
+theorem refmatch_nodisc (env : Env) (s : VMState) (index len : Int) (h0 : 0 ≤ index) (hl : 0 ≤ len)
+    (hn : index + len ≤ env.len) : NoDisc (refmatch env s index len) := by
   intro f h
   unfold refmatch at h
+  rw [if_neg (by omega)] at h
   split at h
-  · cases h; rfl
-  · split at h
+  · cases h
+  · simp only at h
+    split at h
+    · next e he =>
+      cases h
+      refine cmpBack_nodisc' env _ _ _ _ _ (fun i h1 h2 f h => ?_) _ he
+      obtain ⟨ch, hch⟩ := charAt_ok env i (by omega) (by omega)
+      rw [hch] at h; cases h
     · cases h
-    · simp only at h
-      split at h
-      · next e he =>
-        cases h
-        refine cmpBack_nodisc env _ _ (fun i f h => ?_) _ _ _ _ he
-        split at h <;> cases h
-        rfl
-      · cases h
-      · cases h
+    · cases h
 
 theorem isMatched_nodisc (s : VMState) (c : Int) : NoDisc (isMatched s c) := by
   intro f h; unfold isMatched at h; split at h <;> cases h; rfl
@@ -181,12 +203,26 @@ theorem caseMulti_eff (hsz : o.size = 2) : NeutralEff s o (caseMulti p env s) :=
       | some pos => exact ⟨rfl, rfl, Or.inl rfl, Or.inr ⟨1, rfl, by omega⟩⟩
   · rfl
 
-theorem caseRef_eff (hsz : o.size = 2) : NeutralEff s o (caseRef p env s) := by
+theorem caseRef_eff (hsz : o.size = 2) (hcap : CapOk env.len p.capsize s.cap) : NeutralEff s o (caseRef p env s) := by
   unfold caseRef
   refine eff_bind (operand_nodisc _ _ _) (fun _ h => h) (fun i _ => ?_)
-  refine eff_bind (isMatched_nodisc _ _) (fun _ h => h) (fun b _ => ?_)
+  refine eff_bind (isMatched_nodisc _ _) (fun _ h => h) (fun b hb => ?_)
   split
-  · refine eff_bind (refmatch_nodisc _ _ _ _) (fun _ h => h) (fun r _ => ?_)
+  · next hbt =>
+    -- the group is matched: it is a slot, and its innermost capture lies inside the text
+    have hm : MatchBuilder.isMatched s.cap.m i.toNat = true := by
+      unfold isMatched at hb
+      split at hb
+      · cases hb
+      · cases hb; exact hbt
+    have hlt : i.toNat < p.capsize := by
+      have h1 := hm
+      unfold MatchBuilder.isMatched at h1
+      simp only [Bool.and_eq_true, decide_eq_true_eq] at h1
+      have := reach_len hcap.1
+      omega
+    obtain ⟨r0, r1, r2⟩ := capOk_ref hcap i.toNat hlt hm
+    refine eff_bind (refmatch_nodisc _ _ _ _ r0 r1 r2) (fun _ h => h) (fun r _ => ?_)
     cases r with
     | none => exact ⟨rfl, rfl, Or.inl rfl, Or.inl rfl⟩
     | some pos => exact ⟨rfl, rfl, Or.inl rfl, Or.inr ⟨1, rfl, by omega⟩⟩
@@ -272,6 +308,7 @@ structure FwdH (p : Prog) (bs : List Nat) (env : Env) (a : Assign) (s : VMState)
   tr : s.track = core ++ [tp]
   good : Good p bs env.len a core σ (crawlLen s)
   vals : Vals env.len s.stack σ
+  cap : CapOk env.len p.capsize s.cap
 
 /-- the assigned type at `q` is above `S` -/
 def NextOk (a : Assign) (q : Nat) (S : STy) : Prop := ∃ Sn, a.get q = some Sn ∧ subTy S Sn = true
@@ -293,8 +330,9 @@ theorem neutral_fwd {S : STy} {σ : RTy} {core : List Int} {tp : Int} (c : Ctx p
     have hcl : crawlLen s1 = crawlLen s := by unfold crawlLen; rw [hcap]
     have hch : ChainS p bs env.len a s1 σ := by
       rcases htr with ht | ⟨d, ht, hd⟩
-      · exact ⟨core, tp, by rw [ht, h.tr], by rw [hcl]; exact h.good, by rw [hst]; exact h.vals⟩
-      · refine ⟨(s.codepos : Int) :: (d ++ core), tp, by rw [ht, h.tr]; simp, ?_, by rw [hst]; exact h.vals⟩
+      · exact ⟨core, tp, by rw [ht, h.tr], by rw [hcl]; exact h.good, by rw [hst]; exact h.vals, by rw [hcap]; exact h.cap⟩
+      · refine ⟨(s.codepos : Int) :: (d ++ core), tp, by rw [ht, h.tr]; simp, ?_, by rw [hst]; exact h.vals,
+          by rw [hcap]; exact h.cap⟩
         rw [hcl]
         exact good_push c false d core S σ σ _ _ hd (by intro h; cases h) h.hS (hft d _ σ _ hd h.sub) h.good
     rcases hex with rfl | ⟨i, rfl, hi⟩
@@ -320,19 +358,19 @@ theorem target_spec {pc t' : Nat} (h : target p pc = some t') : ∀ t, p.codes[p
 
 theorem nothing_fwd {S : STy} {σ : RTy} {core : List Int} {tp : Int} (h : FwdH p bs env a s S σ core tp) :
     TBodyOk p bs env.len a s.codepos (.ok (s, .back)) :=
-  ⟨σ, core, tp, h.tr, h.good, h.vals⟩
+  ⟨σ, core, tp, h.tr, h.good, h.vals, h.cap⟩
 
 theorem lazybranch_fwd {S : STy} {σ : RTy} {core : List Int} {tp : Int} (c : Ctx p bs env s w o) (ho : o = .lazybranch)
     (h : FwdH p bs env a s S σ core tp) (hn : NextOk a (s.codepos + 2) S) :
     TBodyOk p bs env.len a s.codepos (.ok (push1 s s.textpos, .advance 1)) := by
   subst ho
-  refine ⟨σ, ⟨(s.codepos : Int) :: ([s.textpos] ++ core), tp, by simp [push1, h.tr], ?_, h.vals⟩, hn.succ h.sub⟩
+  refine ⟨σ, ⟨(s.codepos : Int) :: ([s.textpos] ++ core), tp, by simp [push1, h.tr], ?_, h.vals, h.cap⟩, hn.succ h.sub⟩
   exact good_push c false [s.textpos] core S σ σ _ _ rfl (by intro h; cases h) h.hS ⟨h.sub, rfl, rfl⟩ h.good
 
 theorem lazybranch_init (ht : s.track = []) (hst : s.stack = []) (hcr : s.cap.crawl = [])
-    (hpc : s.codepos = 0) (hn : Succ a 2 []) :
+    (hpc : s.codepos = 0) (hcap : CapOk env.len p.capsize s.cap) (hn : Succ a 2 []) :
     TBodyOk p bs env.len a s.codepos (.ok (push1 s s.textpos, .advance 1)) := by
-  refine ⟨[], ⟨[0], s.textpos, by simp [push1, ht, hpc], ?_, by simp [push1, hst, Vals]⟩, by rw [hpc]; exact hn⟩
+  refine ⟨[], ⟨[0], s.textpos, by simp [push1, ht, hpc], ?_, by simp [push1, hst, Vals], hcap⟩, by rw [hpc]; exact hn⟩
   have : crawlLen (push1 s s.textpos) = 0 := by simp [crawlLen, push1, hcr]
   rw [this]; exact Good.root
 
@@ -342,13 +380,13 @@ theorem goto_fwd {S : STy} {σ : RTy} {core : List Int} {tp : Int} (h : FwdH p b
   unfold caseGoto
   cases h0 : operand p s 0 with
   | error f => exact operand_nodisc _ _ _ _ h0
-  | ok t => exact Or.inl ⟨σ, ⟨core, tp, h.tr, h.good, h.vals⟩, (hn t (operand_val h0)).succ h.sub⟩
+  | ok t => exact Or.inl ⟨σ, ⟨core, tp, h.tr, h.good, h.vals, h.cap⟩, (hn t (operand_val h0)).succ h.sub⟩
 
 theorem setmark_fwd {S : STy} {σ : RTy} {core : List Int} {tp : Int} (c : Ctx p bs env s w o)
     (ho : o = .setmark ∨ o = .nullmark) (v : Int) (k : RK) (hk : (o = .setmark ∧ k = .pos) ∨ (o = .nullmark ∧ k = .mark))
     (hv : valOk env.len k v) (h : FwdH p bs env a s S σ core tp) (hn : NextOk a (s.codepos + 1) (k.erase :: S)) :
     TBodyOk p bs env.len a s.codepos (.ok (push0 (spush s v), .advance 0)) := by
-  refine ⟨k :: σ, ⟨(s.codepos : Int) :: ([] ++ core), tp, by simp [push0, spush, h.tr], ?_, ⟨hv, h.vals⟩⟩,
+  refine ⟨k :: σ, ⟨(s.codepos : Int) :: ([] ++ core), tp, by simp [push0, spush, h.tr], ?_, ⟨hv, h.vals⟩, h.cap⟩,
     hn.succ (subTy_cons (Kind.sub_refl _) h.sub)⟩
   refine good_push c false [] core S (k :: σ) σ _ _ ?_ (by intro h; cases h) h.hS ?_ h.good
   · rcases ho with rfl | rfl <;> rfl
@@ -364,7 +402,7 @@ theorem setcount_fwd {S : STy} {σ : RTy} {core : List Int} {tp : Int} (c : Ctx 
   | error f => exact operand_nodisc _ _ _ _ h0
   | ok v =>
     refine ⟨.count :: k :: σ, ⟨(s.codepos : Int) :: ([] ++ core), tp, by simp [push0, spush2, h.tr], ?_,
-      ⟨trivial, hv, h.vals⟩⟩, hn.succ (subTy_cons (Kind.sub_refl _) (subTy_cons (Kind.sub_refl _) h.sub))⟩
+      ⟨trivial, hv, h.vals⟩, h.cap⟩, hn.succ (subTy_cons (Kind.sub_refl _) (subTy_cons (Kind.sub_refl _) h.sub))⟩
     refine good_push c false [] core S (.count :: k :: σ) σ _ _ ?_ (by intro h; cases h) h.hS ?_ h.good
     · rcases hk with ⟨rfl, _⟩ | ⟨rfl, _⟩ <;> rfl
     · rcases hk with ⟨rfl, rfl⟩ | ⟨rfl, rfl⟩ <;> exact ⟨rfl, rfl⟩
@@ -376,7 +414,7 @@ theorem setjump_fwd {S : STy} {σ : RTy} {core : List Int} {tp : Int} (c : Ctx p
   unfold caseSetjump
   have hlen : ((s.track.length : Nat) : Int) = (core.length : Int) + 1 := by rw [h.tr]; simp
   refine ⟨.cd (crawlLen s) :: .td ((core.length : Int) + 1) :: σ,
-    ⟨(s.codepos : Int) :: ([] ++ core), tp, by simp [push0, spush2, h.tr], ?_, ⟨rfl, hlen, h.vals⟩⟩,
+    ⟨(s.codepos : Int) :: ([] ++ core), tp, by simp [push0, spush2, h.tr], ?_, ⟨rfl, hlen, h.vals⟩, h.cap⟩,
     hn.succ (subTy_cons (Kind.sub_refl _) (subTy_cons (Kind.sub_refl _) h.sub))⟩
   exact good_push c false [] core S _ σ _ _ rfl (by intro h; cases h) h.hS
     ⟨rfl, rfl, by unfold crawlLen; omega⟩ h.good
@@ -416,20 +454,20 @@ theorem trackto_cut {core tr' : List Int} {tp : Int} (s1 : VMState) (ht : s1.tra
   rw [h2, ht, cutFrames_cut tp hc _ (by simp)]
   cases tr' <;> rfl
 
-theorem uncaptureTo_spec (target : Int) : ∀ (fuel : Nat) (s1 : VMState), 0 ≤ target → target ≤ crawlLen s1 →
-    crawlLen s1 - target ≤ fuel →
-    ∃ s2, uncaptureTo target fuel s1 = .ok s2 ∧ SameButCap s1 s2 ∧ crawlLen s2 = target := by
+theorem uncaptureTo_spec (N : Int) (k : Nat) (target : Int) : ∀ (fuel : Nat) (s1 : VMState), 0 ≤ target →
+    target ≤ crawlLen s1 → crawlLen s1 - target ≤ fuel → CapOk N k s1.cap →
+    ∃ s2, uncaptureTo target fuel s1 = .ok s2 ∧ SameButCap s1 s2 ∧ crawlLen s2 = target ∧ CapOk N k s2.cap := by
   intro fuel
   induction fuel with
   | zero =>
-    intro s1 h0 h1 h2
+    intro s1 h0 h1 h2 hc
     have : (s1.cap.crawl.length : Int) = target := by unfold crawlLen at h1 h2; omega
-    exact ⟨s1, by simp [uncaptureTo, this], ⟨rfl, rfl, rfl, rfl, rfl⟩, this⟩
+    exact ⟨s1, by simp [uncaptureTo, this], ⟨rfl, rfl, rfl, rfl, rfl⟩, this, hc⟩
   | succ fuel ih =>
-    intro s1 h0 h1 h2
+    intro s1 h0 h1 h2 hc
     unfold uncaptureTo
     by_cases he : (s1.cap.crawl.length : Int) = target
-    · exact ⟨s1, by simp [he], ⟨rfl, rfl, rfl, rfl, rfl⟩, he⟩
+    · exact ⟨s1, by simp [he], ⟨rfl, rfl, rfl, rfl, rfl⟩, he, hc⟩
     · rw [if_neg he]
       unfold crawlLen at h1 h2
       cases hcr : s1.cap.crawl with
@@ -438,11 +476,12 @@ theorem uncaptureTo_spec (target : Int) : ∀ (fuel : Nat) (s1 : VMState), 0 ≤
         have hu : uncapture s1 = .ok { s1 with cap := MatchBuilder.uncapture s1.cap } := by simp [uncapture, hcr]
         have hlen : crawlLen { s1 with cap := MatchBuilder.uncapture s1.cap } = (rest.length : Int) := by
           simp [crawlLen, MatchBuilder.uncapture, hcr]
+        have hc' : CapOk N k (MatchBuilder.uncapture s1.cap) := capOk_uncapture hc (by rw [hcr]; simp)
         rw [hcr] at h1 h2 he
         simp only [List.length_cons] at h1 h2 he
-        obtain ⟨s2, e, hsame, hl⟩ := ih { s1 with cap := MatchBuilder.uncapture s1.cap } h0 (by rw [hlen]; omega)
-          (by rw [hlen]; omega)
-        refine ⟨s2, by simp only [hu]; exact e, ?_, hl⟩
+        obtain ⟨s2, e, hsame, hl, hc2⟩ := ih { s1 with cap := MatchBuilder.uncapture s1.cap } h0 (by rw [hlen]; omega)
+          (by rw [hlen]; omega) hc'
+        refine ⟨s2, by simp only [hu]; exact e, ?_, hl, hc2⟩
         obtain ⟨b1, b2, b3, b4, b5⟩ := hsame
         exact ⟨b1, b2, b3, b4, b5⟩
 
@@ -468,7 +507,7 @@ theorem getmark_fwd {S R : STy} {σ : RTy} {core : List Int} {tp : Int} (c : Ctx
   unfold caseGetmark
   rw [hst]
   simp only [texttoStack, if_pos (show 0 ≤ v ∧ v ≤ env.len from hv), Except.map]
-  refine ⟨ρ, ⟨(s.codepos : Int) :: ([v] ++ core), tp, by simp [textto, push1, h.tr], ?_, hvals⟩, hn.succ hρ⟩
+  refine ⟨ρ, ⟨(s.codepos : Int) :: ([v] ++ core), tp, by simp [textto, push1, h.tr], ?_, hvals, h.cap⟩, hn.succ hρ⟩
   exact good_push c false [v] core S ρ (.pos :: ρ) _ _ rfl (by intro h; cases h) h.hS
     ⟨⟨.pos, rfl, rfl, hv⟩, rfl⟩ h.good
 
@@ -488,10 +527,10 @@ theorem branchmark_fwd {S R : STy} {K : Kind} {σ : RTy} {core : List Int} {tp :
     | error f => exact operand_nodisc _ _ _ _ h0
     | ok t =>
       refine Or.inl ⟨.pos :: ρ, ⟨(s.codepos : Int) :: ([s.textpos, mark] ++ core), tp, by simp [spush, push2, h.tr], ?_,
-        ⟨⟨c.tp0, c.tpn⟩, hvals⟩⟩, (hj t (operand_val h0)).succ (subTy_cons (Kind.sub_refl _) hρ)⟩
+        ⟨⟨c.tp0, c.tpn⟩, hvals⟩, h.cap⟩, (hj t (operand_val h0)).succ (subTy_cons (Kind.sub_refl _) hρ)⟩
       exact good_push c false [s.textpos, mark] core S (.pos :: ρ) (k :: ρ) _ _ rfl (by intro h; cases h) h.hS
         ⟨⟨ρ, k, K, R, rfl, hS, hρ, rfl, hkm, hv⟩, rfl⟩ h.good
-  · refine ⟨ρ, ⟨-(s.codepos : Int) :: ([mark] ++ core), tp, by simp [pushNeg1, h.tr], ?_, hvals⟩, hn.succ hρ⟩
+  · refine ⟨ρ, ⟨-(s.codepos : Int) :: ([mark] ++ core), tp, by simp [pushNeg1, h.tr], ?_, hvals, h.cap⟩, hn.succ hρ⟩
     exact good_push c true [mark] core S ρ (k :: ρ) _ _ rfl (by intro _ h; cases h) h.hS
       ⟨⟨k, rfl, hkm, hv⟩, rfl⟩ h.good
 
@@ -507,14 +546,14 @@ theorem lazybranchmark_fwd {S R : STy} {K : Kind} {σ : RTy} {core : List Int} {
   simp only
   split
   · split
-    · refine ⟨ρ, ⟨(s.codepos : Int) :: ([s.textpos, old] ++ core), tp, by simp [push2, h.tr], ?_, hvals⟩, hn.succ hρ⟩
+    · refine ⟨ρ, ⟨(s.codepos : Int) :: ([s.textpos, old] ++ core), tp, by simp [push2, h.tr], ?_, hvals, h.cap⟩, hn.succ hρ⟩
       exact good_push c false [s.textpos, old] core S ρ (k :: ρ) _ _ rfl (by intro h; cases h) h.hS
         ⟨⟨k, K, R, hS, hρ, c.tp0, c.tpn, rfl, hkm, hv⟩, rfl⟩ h.good
-    · refine ⟨ρ, ⟨(s.codepos : Int) :: ([s.textpos, s.textpos] ++ core), tp, by simp [push2, h.tr], ?_, hvals⟩,
+    · refine ⟨ρ, ⟨(s.codepos : Int) :: ([s.textpos, s.textpos] ++ core), tp, by simp [push2, h.tr], ?_, hvals, h.cap⟩,
         hn.succ hρ⟩
       exact good_push c false [s.textpos, s.textpos] core S ρ (k :: ρ) _ _ rfl (by intro h; cases h) h.hS
         ⟨⟨k, K, R, hS, hρ, c.tp0, c.tpn, rfl, hkm, valOk_isMark hkm c.tp0 c.tpn⟩, rfl⟩ h.good
-  · refine ⟨ρ, ⟨-(s.codepos : Int) :: ([0, old] ++ core), tp, by simp [pushNeg2, h.tr], ?_, hvals⟩, hn.succ hρ⟩
+  · refine ⟨ρ, ⟨-(s.codepos : Int) :: ([0, old] ++ core), tp, by simp [pushNeg2, h.tr], ?_, hvals, h.cap⟩, hn.succ hρ⟩
     exact good_push c true [0, old] core S ρ (k :: ρ) _ _ rfl (by intro _ h; cases h) h.hS
       ⟨⟨k, hkm, hv, by simp⟩, rfl⟩ h.good
 
@@ -542,12 +581,12 @@ theorem branchcount_fwd {S R : STy} {K : Kind} {σ : RTy} {core : List Int} {tp 
   simp only
   refine eff_bind (P := TBodyOk p bs env.len a s.codepos) (operand_nodisc _ _ _) (fun _ h => h) (fun lim _ => ?_)
   split
-  · refine ⟨ρ, ⟨-(s.codepos : Int) :: ([cnt, mark] ++ core), tp, by simp [pushNeg2, h.tr], ?_, hvals⟩, hn.succ hρ⟩
+  · refine ⟨ρ, ⟨-(s.codepos : Int) :: ([cnt, mark] ++ core), tp, by simp [pushNeg2, h.tr], ?_, hvals, h.cap⟩, hn.succ hρ⟩
     exact good_push c true [cnt, mark] core S ρ (.count :: k :: ρ) _ _ rfl (by intro _ h; cases h) h.hS
       ⟨⟨k, rfl, hkm, hv⟩, rfl⟩ h.good
   · refine eff_bind (P := TBodyOk p bs env.len a s.codepos) (operand_nodisc _ _ _) (fun _ h => h) (fun t ht => ?_)
     refine Or.inl ⟨.count :: .pos :: ρ, ⟨(s.codepos : Int) :: ([mark] ++ core), tp, by simp [spush2, push1, h.tr], ?_,
-      ⟨trivial, ⟨c.tp0, c.tpn⟩, hvals⟩⟩,
+      ⟨trivial, ⟨c.tp0, c.tpn⟩, hvals⟩, h.cap⟩,
       (hj t (operand_val ht)).succ (subTy_cons (Kind.sub_refl _) (subTy_cons (Kind.sub_refl _) hρ))⟩
     exact good_push c false [mark] core S (.count :: .pos :: ρ) (.count :: k :: ρ) _ _ rfl (by intro h; cases h) h.hS
       ⟨⟨ρ, k, K, R, rfl, hS, hρ, rfl, hkm, hv⟩, rfl⟩ h.good
@@ -568,11 +607,11 @@ theorem lazybranchcount_fwd {S R : STy} {K : Kind} {σ : RTy} {core : List Int} 
     | error f => exact operand_nodisc _ _ _ _ h0
     | ok t =>
       refine Or.inl ⟨.count :: .pos :: ρ, ⟨-(s.codepos : Int) :: ([mark] ++ core), tp,
-        by simp [spush2, pushNeg1, h.tr], ?_, ⟨trivial, ⟨c.tp0, c.tpn⟩, hvals⟩⟩,
+        by simp [spush2, pushNeg1, h.tr], ?_, ⟨trivial, ⟨c.tp0, c.tpn⟩, hvals⟩, h.cap⟩,
         (hj t (operand_val h0)).succ (subTy_cons (Kind.sub_refl _) (subTy_cons (Kind.sub_refl _) hρ))⟩
       exact good_push c true [mark] core S (.count :: .pos :: ρ) (.count :: k :: ρ) _ _ rfl (by intro _ h; cases h) h.hS
         ⟨⟨ρ, k, rfl, rfl, hkm, hv⟩, rfl⟩ h.good
-  · refine ⟨ρ, ⟨(s.codepos : Int) :: ([s.textpos, cnt, mark] ++ core), tp, by simp [push3, h.tr], ?_, hvals⟩, hn.succ hρ⟩
+  · refine ⟨ρ, ⟨(s.codepos : Int) :: ([s.textpos, cnt, mark] ++ core), tp, by simp [push3, h.tr], ?_, hvals, h.cap⟩, hn.succ hρ⟩
     exact good_push c false [s.textpos, cnt, mark] core S ρ (.count :: k :: ρ) _ _ rfl (by intro h; cases h) h.hS
       ⟨⟨k, K, R, hS, hρ, c.tp0, c.tpn, rfl, hkm, hv⟩, rfl⟩ h.good
 
@@ -601,10 +640,10 @@ theorem backjump_fwd {S R : STy} {σ : RTy} {core : List Int} {tp : Int}
   simp only [bind, Except.bind]
   rw [trackto_cut (p := p) (tp := tp) { s with stack := rest } h.tr hcut y hlen]
   simp only
-  obtain ⟨s2, e, ⟨b1, b2, b3, b4, b5⟩, hl⟩ := uncaptureTo_spec x s.cap.crawl.length
-    { s with stack := rest, track := tr' ++ [tp] } hx0 hxl (by simp only [crawlLen]; omega)
+  obtain ⟨s2, e, ⟨b1, b2, b3, b4, b5⟩, hl, hc2⟩ := uncaptureTo_spec env.len p.capsize x s.cap.crawl.length
+    { s with stack := rest, track := tr' ++ [tp] } hx0 hxl (by simp only [crawlLen]; omega) h.cap
   rw [e]
-  exact ⟨ρ, tr', tp, b1, by rw [hl]; exact hg, by rw [b5]; exact hvals⟩
+  exact ⟨ρ, tr', tp, b1, by rw [hl]; exact hg, by rw [b5]; exact hvals, hc2⟩
 
 theorem forejump_fwd {S R : STy} {σ : RTy} {core : List Int} {tp : Int} (c : Ctx p bs env s w o) (ho : o = .forejump)
     (h : FwdH p bs env a s S σ core tp) (hS : S = .cdepth :: .tdepth :: R) (hn : NextOk a (s.codepos + 1) R) :
@@ -617,7 +656,7 @@ theorem forejump_fwd {S R : STy} {σ : RTy} {core : List Int} {tp : Int} (c : Ct
   simp only
   rw [trackto_cut (p := p) (tp := tp) { s with stack := rest } h.tr hcut y hlen]
   simp only [Except.map]
-  refine ⟨ρ, ⟨(s.codepos : Int) :: ([x] ++ tr'), tp, by simp [push1], ?_, hvals⟩, hn.succ hρ⟩
+  refine ⟨ρ, ⟨(s.codepos : Int) :: ([x] ++ tr'), tp, by simp [push1], ?_, hvals, h.cap⟩, hn.succ hρ⟩
   exact good_push c false [x] tr' S ρ ρ _ x rfl (by intro h; cases h) h.hS ⟨rfl, rfl, hx0, hxl⟩ hg
 
 theorem updatebumpalong_fwd {S : STy} {σ : RTy} {core : List Int} {tp : Int}
@@ -628,10 +667,10 @@ theorem updatebumpalong_fwd {S : STy} {σ : RTy} {core : List Int} {tp : Int}
   rw [hl]
   simp only
   split
-  · refine ⟨σ, ⟨core, s.textpos, ?_, h.good, h.vals⟩, hn.succ h.sub⟩
+  · refine ⟨σ, ⟨core, s.textpos, ?_, h.good, h.vals, h.cap⟩, hn.succ h.sub⟩
     show s.track.dropLast ++ [s.textpos] = core ++ [s.textpos]
     rw [h.tr]; simp
-  · exact ⟨σ, ⟨core, tp, h.tr, h.good, h.vals⟩, hn.succ h.sub⟩
+  · exact ⟨σ, ⟨core, tp, h.tr, h.good, h.vals, h.cap⟩, hn.succ h.sub⟩
 
 /-! ### `Capturemark` -/
 
@@ -657,12 +696,13 @@ theorem capturemark_fwd {S R : STy} {σ : RTy} {core : List Int} {tp : Int} (c :
   have e0 := operand_val h0
   have e1 := operand_val h1
   have hK : capK p s.codepos = if c0 ≠ -1 ∧ c1 ≠ -1 then 2 else 1 := by
-    unfold capK; simp only [e0, e1, Option.getD_some, bne_iff_ne, ne_eq, Bool.and_eq_true, decide_eq_true_eq]
+    unfold capK; simp only [e0, e1, Option.getD_some, bne_iff_ne, ne_eq, Bool.and_eq_true]
   -- the frame pushed by both capturing branches
   have key : ∀ (cap' : MatchBuilder.Runner), (cap'.crawl.length : Int) = crawlLen s + capK p s.codepos →
+      CapOk env.len p.capsize cap' →
       TMid p bs env.len a s.codepos (push1 { s with stack := rest, cap := cap' } v) (.advance 2) := by
-    intro cap' hc
-    refine ⟨ρ, ⟨(s.codepos : Int) :: ([v] ++ core), tp, by simp [push1, h.tr], ?_, hvals⟩, hn.succ hρ⟩
+    intro cap' hc hcap'
+    refine ⟨ρ, ⟨(s.codepos : Int) :: ([v] ++ core), tp, by simp [push1, h.tr], ?_, hvals, hcap'⟩, hn.succ hρ⟩
     have hcl : crawlLen (push1 { s with stack := rest, cap := cap' } v) = crawlLen s + capK p s.codepos := by
       simp only [crawlLen, push1]; exact hc
     rw [hcl]
@@ -674,20 +714,44 @@ theorem capturemark_fwd {S R : STy} {σ : RTy} {core : List Int} {tp : Int} (c :
   · subst hc1
     simp only [bne_self_eq_false, Bool.false_eq_true, ite_false, pure, Except.pure, bind, Except.bind, hst]
     split
-    · refine key _ ?_
+    · next hok =>
+      have hlt : c0.toNat < p.capsize := by
+        simp only [capOk, Bool.and_eq_true, decide_eq_true_eq] at hok; exact hok.2
+      refine key _ ?_ (capOk_capture h.cap c0.toNat hlt v s.textpos hv.1 hv.2 c.tp0 c.tpn)
       rw [capture_crawl, hK]
       simp [crawlLen]
     · rfl
   · have hne : (c1 != -1) = true := by simp [hc1]
     simp only [hne, ite_true]
     refine eff_bind (P := TBodyOk p bs env.len a s.codepos) (map_nodisc _ (isMatched_nodisc _ _)) (fun _ h => h)
-      (fun um _ => ?_)
+      (fun um hum => ?_)
     split
-    · exact ⟨.pos :: ρ, core, tp, h.tr, h.good, h.vals⟩
-    · rw [hst]
+    · exact ⟨.pos :: ρ, core, tp, h.tr, h.good, h.vals, h.cap⟩
+    · next hnum =>
+      -- the group to pop is matched, hence a slot
+      have hm : MatchBuilder.isMatched s.cap.m c1.toNat = true := by
+        unfold isMatched at hum
+        split at hum
+        · cases hum
+        · simp only [Except.map, Except.ok.injEq] at hum
+          cases hb : MatchBuilder.isMatched s.cap.m c1.toNat
+          · rw [hb] at hum; simp at hum; exact absurd hum hnum
+          · rfl
+      have hlt1 : c1.toNat < p.capsize := by
+        have h1 := hm
+        unfold MatchBuilder.isMatched at h1
+        simp only [Bool.and_eq_true, decide_eq_true_eq] at h1
+        have := reach_len h.cap.1
+        omega
+      rw [hst]
       simp only
       split
-      · refine key _ ?_
+      · next hcond =>
+        have hc0' : c0 = -1 ∨ (0 ≤ c0 ∧ c0.toNat < p.capsize) := by
+          rcases hcond with h' | h'
+          · exact Or.inl h'
+          · simp only [capOk, Bool.and_eq_true, decide_eq_true_eq] at h'; exact Or.inr h'
+        refine key _ ?_ (capOk_transfer h.cap c0 c1.toNat hc0' hlt1 hm v s.textpos hv.1 hv.2 c.tp0 c.tpn)
         rw [transferCapture_crawl, hK]
         by_cases hc0 : c0 = -1 <;> simp [crawlLen, hc1, hc0]
       · rfl
@@ -703,6 +767,7 @@ structure BackH (p : Prog) (bs : List Nat) (env : Env) (a : Assign) (s : VMState
   ft : FrameTy p env.len s.codepos o b2 S d ((core.length : Int) + 1) τ (crawlLen s) τ' cl'
   good : Good p bs env.len a core τ' cl'
   vals : Vals env.len s.stack τ
+  cap : CapOk env.len p.capsize s.cap
 
 /-- effect of `Oneloop|Back` … `Setlazy|Back`: the frame is popped, at most one frame of the same instruction pushed -/
 def NeutralBackEff (s : VMState) (rest : List Int) : Res → Prop
@@ -751,8 +816,9 @@ theorem neutral_back {S : STy} {d core : List Int} {tp : Int} {τ τ' : RTy} {cl
     have hcl : crawlLen s1 = crawlLen s := by unfold crawlLen; rw [hcap]
     have hch : ChainS p bs env.len a s1 τ' := by
       rcases htr with ht | ⟨x, y, ht⟩
-      · exact ⟨core, tp, ht, by rw [hcl]; exact b.good, by rw [hst]; exact b.vals⟩
-      · refine ⟨(s.codepos : Int) :: ([x, y] ++ core), tp, by rw [ht]; simp, ?_, by rw [hst]; exact b.vals⟩
+      · exact ⟨core, tp, ht, by rw [hcl]; exact b.good, by rw [hst]; exact b.vals, by rw [hcap]; exact b.cap⟩
+      · refine ⟨(s.codepos : Int) :: ([x, y] ++ core), tp, by rw [ht]; simp, ?_, by rw [hst]; exact b.vals,
+          by rw [hcap]; exact b.cap⟩
         rw [hcl]
         refine good_push c false [x, y] core S τ' τ' _ _ ?_ (by intro h; cases h) b.hS ?_ b.good
         · rcases ho with rfl | rfl | rfl | rfl | rfl | rfl <;> rfl
@@ -773,7 +839,7 @@ theorem lazybranch_back {S : STy} {d core : List Int} {tp : Int} {τ τ' : RTy} 
   simp only [List.cons_append, List.nil_append]
   cases h0 : operand p s 0 with
   | error f => exact operand_nodisc _ _ _ _ h0
-  | ok t => exact Or.inl ⟨τ', ⟨core, tp, rfl, b.good, b.vals⟩, (hj t (operand_val h0)).succ hsub⟩
+  | ok t => exact Or.inl ⟨τ', ⟨core, tp, rfl, b.good, b.vals, b.cap⟩, (hj t (operand_val h0)).succ hsub⟩
 
 theorem lazybranch_back_root (c : Ctx p bs env s w o) (hpc : s.codepos = 0) {tp : Int} (ht : s.track = [tp]) :
     TBodyOk p bs env.len a s.codepos (caseLazybranchBack p s) := by
@@ -804,7 +870,7 @@ theorem pop1_back {S : STy} {d core : List Int} {tp : Int} {τ τ' : RTy} {cl' :
   obtain ⟨v, rest, hst, _, hvals⟩ := b.vals.cons_inv
   unfold casePop1Back
   rw [hst]
-  exact ⟨τ', core, tp, b.tr, b.good, hvals⟩
+  exact ⟨τ', core, tp, b.tr, b.good, hvals, b.cap⟩
 
 theorem pop2_back {S : STy} {d core : List Int} {tp : Int} {τ τ' : RTy} {cl' : Int}
     (ho : o = .setcount ∨ o = .nullcount ∨ o = .setjump)
@@ -820,7 +886,7 @@ theorem pop2_back {S : STy} {d core : List Int} {tp : Int} {τ τ' : RTy} {cl' :
   obtain ⟨v2, rest, rfl, _, hvals⟩ := hvals1.cons_inv
   unfold casePop2Back
   rw [hst]
-  exact ⟨τ', core, tp, b.tr, b.good, hvals⟩
+  exact ⟨τ', core, tp, b.tr, b.good, hvals, b.cap⟩
 
 theorem restore_back {S : STy} {d core : List Int} {tp : Int} {τ τ' : RTy} {cl' : Int} {b2 : Bool}
     (ho : (o = .getmark ∧ b2 = false) ∨ (o = .branchmark ∧ b2 = true))
@@ -834,15 +900,16 @@ theorem restore_back {S : STy} {d core : List Int} {tp : Int} {τ τ' : RTy} {cl
   unfold caseRestoreBack restoreMark
   rw [b.tr]
   simp only [List.cons_append, List.nil_append, Except.map]
-  exact ⟨k :: τ, core, tp, rfl, b.good, ⟨hv, b.vals⟩⟩
+  exact ⟨k :: τ, core, tp, rfl, b.good, ⟨hv, b.vals⟩, b.cap⟩
 
-theorem uncapture_spec (s1 : VMState) (h : 1 ≤ crawlLen s1) :
-    ∃ s2, uncapture s1 = .ok s2 ∧ SameButCap s1 s2 ∧ crawlLen s2 = crawlLen s1 - 1 := by
+theorem uncapture_spec (N : Int) (k : Nat) (s1 : VMState) (h : 1 ≤ crawlLen s1) (hc : CapOk N k s1.cap) :
+    ∃ s2, uncapture s1 = .ok s2 ∧ SameButCap s1 s2 ∧ crawlLen s2 = crawlLen s1 - 1 ∧ CapOk N k s2.cap := by
   unfold crawlLen at h
   cases hcr : s1.cap.crawl with
   | nil => rw [hcr] at h; simp at h
   | cons x rest =>
-    refine ⟨{ s1 with cap := MatchBuilder.uncapture s1.cap }, by simp [uncapture, hcr], ⟨rfl, rfl, rfl, rfl, rfl⟩, ?_⟩
+    refine ⟨{ s1 with cap := MatchBuilder.uncapture s1.cap }, by simp [uncapture, hcr], ⟨rfl, rfl, rfl, rfl, rfl⟩, ?_,
+      capOk_uncapture hc (by rw [hcr]; simp)⟩
     simp [crawlLen, MatchBuilder.uncapture, hcr]
 
 theorem capturemark_back {S : STy} {d core : List Int} {tp : Int} {τ τ' : RTy} {cl' : Int} (ho : o = .capturemark)
@@ -863,23 +930,23 @@ theorem capturemark_back {S : STy} {d core : List Int} {tp : Int} {τ τ' : RTy}
   have hp := capK_pos p s.codepos
   rw [b.tr]
   simp only [List.cons_append, List.nil_append, bind, Except.bind]
-  obtain ⟨s2, e2, ⟨a1, a2, a3, a4, a5⟩, hl2⟩ := uncapture_spec (spush { s with track := core ++ [tp] } v)
-    (by simp only [crawlLen, spush] at hK ⊢; omega)
+  obtain ⟨s2, e2, ⟨a1, a2, a3, a4, a5⟩, hl2, hc2⟩ := uncapture_spec env.len p.capsize
+    (spush { s with track := core ++ [tp] } v) (by simp only [crawlLen, spush] at hK ⊢; omega) b.cap
   rw [e2]
   simp only
   have hl2' : crawlLen s2 = crawlLen s - 1 := by rw [hl2]; simp [crawlLen, spush]
   split
   · next hc =>
     rw [if_pos hc] at hKd
-    obtain ⟨s3, e3, ⟨b1, b2, b3, b4, b5⟩, hl3⟩ := uncapture_spec s2 (by omega)
+    obtain ⟨s3, e3, ⟨b1, b2, b3, b4, b5⟩, hl3, hc3⟩ := uncapture_spec env.len p.capsize s2 (by omega) hc2
     rw [e3]
-    refine ⟨k :: τ, core, tp, by rw [b1, a1]; rfl, ?_, ?_⟩
+    refine ⟨k :: τ, core, tp, by rw [b1, a1]; rfl, ?_, ?_, hc3⟩
     · have : crawlLen s3 = crawlLen s - capK p s.codepos := by omega
       rw [this]; exact b.good
     · rw [b5, a5]; exact ⟨hv, b.vals⟩
   · next hc =>
     rw [if_neg hc] at hKd
-    refine ⟨k :: τ, core, tp, by rw [a1]; rfl, ?_, ?_⟩
+    refine ⟨k :: τ, core, tp, by rw [a1]; rfl, ?_, ?_, hc2⟩
     · have : crawlLen s2 = crawlLen s - capK p s.codepos := by omega
       rw [this]; exact b.good
     · rw [a5]; exact ⟨hv, b.vals⟩
@@ -897,7 +964,7 @@ theorem branchmark_back {S : STy} {d core : List Int} {tp : Int} {τ τ' : RTy} 
   unfold caseBranchmarkBack
   rw [b.tr, hst]
   simp only [List.cons_append, List.nil_append]
-  refine ⟨r, ⟨-(s.codepos : Int) :: ([mark] ++ core), tp, by simp [pushNeg1, textto], ?_, hvals⟩, (hn K R hS).succ hr⟩
+  refine ⟨r, ⟨-(s.codepos : Int) :: ([mark] ++ core), tp, by simp [pushNeg1, textto], ?_, hvals, b.cap⟩, (hn K R hS).succ hr⟩
   exact good_push c true [mark] core S r (k :: r) _ _ rfl (by intro _ h; cases h) b.hS ⟨⟨k, rfl, hk, hv⟩, rfl⟩ b.good
 
 theorem lazybranchmark_back {S : STy} {d core : List Int} {tp : Int} {τ τ' : RTy} {cl' : Int} (c : Ctx p bs env s w o)
@@ -916,7 +983,7 @@ theorem lazybranchmark_back {S : STy} {d core : List Int} {tp : Int} {τ τ' : R
   | error f => exact operand_nodisc _ _ _ _ h0
   | ok t =>
     refine Or.inl ⟨.pos :: τ, ⟨-(s.codepos : Int) :: ([1, old] ++ core), tp, by simp [pushNeg2, textto, spush], ?_,
-      ⟨⟨hp0, hpn⟩, b.vals⟩⟩, (hj K R t hS (operand_val h0)).succ (subTy_cons (Kind.sub_refl _) hr)⟩
+      ⟨⟨hp0, hpn⟩, b.vals⟩, b.cap⟩, (hj K R t hS (operand_val h0)).succ (subTy_cons (Kind.sub_refl _) hr)⟩
     exact good_push c true [1, old] core S (.pos :: τ) (k :: τ) _ _ rfl (by intro _ h; cases h) b.hS
       ⟨⟨k, hk, hv, by simp⟩, rfl⟩ b.good
 
@@ -937,11 +1004,11 @@ theorem lazybranchmark_back2 {S : STy} {d core : List Int} {tp : Int} {τ τ' : 
     obtain ⟨r, rfl, rfl⟩ := hif
     obtain ⟨x, srest, hst, _, hvals⟩ := b.vals.cons_inv
     rw [hst]
-    exact ⟨k :: r, core, tp, rfl, b.good, ⟨hv, hvals⟩⟩
+    exact ⟨k :: r, core, tp, rfl, b.good, ⟨hv, hvals⟩, b.cap⟩
   · next hnp =>
     rw [if_neg hnp] at hif
     subst hif
-    exact ⟨k :: τ, core, tp, rfl, b.good, ⟨hv, b.vals⟩⟩
+    exact ⟨k :: τ, core, tp, rfl, b.good, ⟨hv, b.vals⟩, b.cap⟩
 
 theorem branchcount_back {S : STy} {d core : List Int} {tp : Int} {τ τ' : RTy} {cl' : Int} (c : Ctx p bs env s w o)
     (ho : o = .branchcount) (b : BackH p bs env a s o false S d core tp τ τ' cl')
@@ -959,11 +1026,11 @@ theorem branchcount_back {S : STy} {d core : List Int} {tp : Int} {τ τ' : RTy}
   simp only [List.cons_append, List.nil_append]
   split
   · simp only [texttoStack, if_pos (show 0 ≤ mark ∧ mark ≤ env.len from hm), Except.map]
-    refine ⟨r, ⟨-(s.codepos : Int) :: ([cnt - 1, pmark] ++ core), tp, by simp [pushNeg2, textto], ?_, hvals⟩,
+    refine ⟨r, ⟨-(s.codepos : Int) :: ([cnt - 1, pmark] ++ core), tp, by simp [pushNeg2, textto], ?_, hvals, b.cap⟩,
       (hn K R hS).succ hr⟩
     exact good_push c true [cnt - 1, pmark] core S r (.count :: k :: r) _ _ rfl (by intro _ h; cases h) b.hS
       ⟨⟨k, rfl, hk, hv⟩, rfl⟩ b.good
-  · exact ⟨.count :: k :: r, core, tp, rfl, b.good, ⟨trivial, hv, hvals⟩⟩
+  · exact ⟨.count :: k :: r, core, tp, rfl, b.good, ⟨trivial, hv, hvals⟩, b.cap⟩
 
 theorem branchcount_back2 {S : STy} {d core : List Int} {tp : Int} {τ τ' : RTy} {cl' : Int}
     (ho : o = .branchcount) (b : BackH p bs env a s o true S d core tp τ τ' cl') :
@@ -975,7 +1042,7 @@ theorem branchcount_back2 {S : STy} {d core : List Int} {tp : Int} {τ τ' : RTy
   unfold caseBranchcountBack2
   rw [b.tr]
   simp only [List.cons_append, List.nil_append]
-  exact ⟨.count :: k :: τ, core, tp, rfl, b.good, ⟨trivial, hv, b.vals⟩⟩
+  exact ⟨.count :: k :: τ, core, tp, rfl, b.good, ⟨trivial, hv, b.vals⟩, b.cap⟩
 
 theorem lazybranchcount_back {S : STy} {d core : List Int} {tp : Int} {τ τ' : RTy} {cl' : Int} (c : Ctx p bs env s w o)
     (ho : o = .lazybranchcount) (b : BackH p bs env a s o false S d core tp τ τ' cl')
@@ -993,11 +1060,11 @@ theorem lazybranchcount_back {S : STy} {d core : List Int} {tp : Int} {τ τ' : 
   split
   · refine eff_bind (P := TBodyOk p bs env.len a s.codepos) (operand_nodisc _ _ _) (fun _ h => h) (fun t ht => ?_)
     refine Or.inl ⟨.count :: .pos :: τ, ⟨-(s.codepos : Int) :: ([mark] ++ core), tp,
-      by simp [pushNeg1, spush2, textto], ?_, ⟨trivial, ⟨hp0, hpn⟩, b.vals⟩⟩,
+      by simp [pushNeg1, spush2, textto], ?_, ⟨trivial, ⟨hp0, hpn⟩, b.vals⟩, b.cap⟩,
       (hj K R t hS (operand_val ht)).succ (subTy_cons (Kind.sub_refl _) (subTy_cons (Kind.sub_refl _) hr))⟩
     exact good_push c true [mark] core S (.count :: .pos :: τ) (.count :: k :: τ) _ _ rfl (by intro _ h; cases h) b.hS
       ⟨⟨τ, k, rfl, rfl, hk, hv⟩, rfl⟩ b.good
-  · exact ⟨.count :: k :: τ, core, tp, rfl, b.good, ⟨trivial, hv, b.vals⟩⟩
+  · exact ⟨.count :: k :: τ, core, tp, rfl, b.good, ⟨trivial, hv, b.vals⟩, b.cap⟩
 
 theorem lazybranchcount_back2 {S : STy} {d core : List Int} {tp : Int} {τ τ' : RTy} {cl' : Int}
     (ho : o = .lazybranchcount) (b : BackH p bs env a s o true S d core tp τ τ' cl') :
@@ -1012,7 +1079,7 @@ theorem lazybranchcount_back2 {S : STy} {d core : List Int} {tp : Int} {τ τ' :
   unfold caseLazybranchcountBack2
   rw [b.tr, hst]
   simp only [List.cons_append, List.nil_append]
-  exact ⟨.count :: k :: r, core, tp, rfl, b.good, ⟨trivial, hv, hvals⟩⟩
+  exact ⟨.count :: k :: r, core, tp, rfl, b.good, ⟨trivial, hv, hvals⟩, b.cap⟩
 
 theorem forejump_back {S : STy} {d core : List Int} {tp : Int} {τ τ' : RTy} {cl' : Int}
     (ho : o = .forejump) (b : BackH p bs env a s o false S d core tp τ τ' cl') :
@@ -1023,10 +1090,10 @@ theorem forejump_back {S : STy} {d core : List Int} {tp : Int} {τ τ' : RTy} {c
   unfold caseForejumpBack
   rw [b.tr]
   simp only [List.cons_append, List.nil_append]
-  obtain ⟨s2, e, ⟨b1, b2, b3, b4, b5⟩, hl2⟩ := uncaptureTo_spec cl' s.cap.crawl.length
-    { s with track := core ++ [tp] } h0 hl (by simp only [crawlLen]; omega)
+  obtain ⟨s2, e, ⟨b1, b2, b3, b4, b5⟩, hl2, hc2⟩ := uncaptureTo_spec env.len p.capsize cl' s.cap.crawl.length
+    { s with track := core ++ [tp] } h0 hl (by simp only [crawlLen]; omega) b.cap
   rw [e]
-  exact ⟨τ', core, tp, b1, by rw [hl2]; exact b.good, by rw [b5]; exact b.vals⟩
+  exact ⟨τ', core, tp, b1, by rw [hl2]; exact b.good, by rw [b5]; exact b.vals, hc2⟩
 
 end cases
 end RegexVerif.Lemmas.StackTypingSound
